@@ -30,11 +30,15 @@ def run(ctx, db, tier):
 
 
 def _conv_lambdas(db):
-    out = []
+    """keys of the resume functions of the future_conv shapes: the lambdas handed to the base constructor, or named static members used instead"""
+    out = set()
     for k in db.keys():
         f = db.rep(k)
         if f.get('lambda') and '/future_conv.h' in k and 'future_conv::future_conv' in f['nname']:
-            out.append(k)
+            out.add(k)
+    for g in resume_bodies(db, 'cocls::future_conv::future_conv'):
+        if '/future_conv.h' in g['key']:
+            out.add(g['key'])
     return sorted(out)
 
 
@@ -59,7 +63,7 @@ def conv_siblings(ctx, db):
         for lf in db.instances(k):
             evl = list(lf.events())
             has_catch = any((b.get('label') or {}).get('kind') == 'catch' and (b['label'].get('type') == '...') for b in lf['blocks'])
-            pdecl = next((e for e in evl if e.k == 'decl' and 'promise<' in (e.get('type') or '') and '_prom' in (e.get('init') or '')), None)
+            pdecl = next((e for e in evl if e.k == 'decl' and 'promise<' in (e.get('type') or '') and ('_prom' in (e.get('init') or '') or 'take_promise' in (e.get('init') or '') or re.search(r'call\(cocls::future_conv_promise_base::\w+\)', e.get('init') or ''))), None)
             bad = None
             if not has_catch:
                 bad = 'no catch(...) handler: an exception thrown by the source or the converter escapes a noexcept resume function (terminate) and the outer future is never resolved'
@@ -77,8 +81,8 @@ def conv_siblings(ctx, db):
                         continue
                     exc = any(it.k == 'exception' for it in tr)
                     pc = [c for c in calls(tr) if norm(c.get('callee')) in PROM_CALL]
-                    mine = [c for c in pc if c.get('recv') == pv]
-                    deleg = [c for c in calls(tr) if c.k == 'call' and any(a.get('path') == pv for a in c.get('args', [])) and norm(c.get('callee') or '') not in PROM_CALL and norm(c.get('callee') or '') not in ('std::move',)]
+                    mine = [c for c in pc if (c.get('recv') == pv or c.get('orecv') == pv)]
+                    deleg = [c for c in calls(tr) if c.k == 'call' and any(a.get('path') == pv or a.get('opath') == pv for a in c.get('args', [])) and norm(c.get('callee') or '') not in PROM_CALL and norm(c.get('callee') or '') not in ('std::move',)]
                     if exc:
                         nexc += 1
                         # events before the throw that already resolved would make it twice
@@ -142,13 +146,31 @@ def self_owning(ctx, db):
         ctx.ob(rid, g, g['key'], len(nw) == 1 and not dd, 'discard allocates its helper once and leaves freeing to the helper', desc='discard allocation/free mismatch')
 
 
+def _in_catch(tr, item):
+    """is the event lexically inside a catch handler, itself or through the expanded local helpers that enclose it?"""
+    if item.get('in_catch'):
+        return True
+    i = next((k for k, x in enumerate(tr) if x is item), -1)
+    depth = 0
+    for x in reversed(tr[:i]):
+        if x.k == 'leave':
+            depth += 1
+        elif x.k == 'enter':
+            if depth == 0:
+                if x.ev.get('in_catch'):
+                    return True
+            else:
+                depth -= 1
+    return False
+
+
 def callback_coro(ctx, db):
     rid = ctx.rule('C18.callback-once', 'COUNT', 'callback_await_coro: the callback is invoked exactly once on the path where the awaited expression produces a value and exactly once on every path where '
                    'the awaited expression (or the callback on the value path) throws; a catch-all exists', floor=1)
     fns = db.fns('cocls::_details::callback_await_coro')
     if not fns:
         raise Broken('callback_await_coro not instantiated')
-    T = Tracer(db, depth=0, exc_edges=lambda ev: ev.k == 'co_await' and not ev.get('implicit_await'))
+    T = htracer(db, exc=lambda ev: ev.k == 'co_await' and not ev.get('implicit_await'))
     seen_bad = None; n = 0
     for f in fns:
         has_catch = any((b.get('label') or {}).get('kind') == 'catch' and b['label'].get('type') == '...' for b in f['blocks'])
@@ -163,7 +185,7 @@ def callback_coro(ctx, db):
             cb = [c for c in calls(tr) if c.k == 'call' and (c.get('recv') == 'param:fn' or (c.get('callee_expr') or '').startswith('param:fn'))]
             if len(cb) != 1:
                 seen_bad = seen_bad or (f, 'the callback runs %d times on a path (%s)' % (len(cb), 'exception' if any(it.k == 'exception' for it in tr) else 'value'))
-            elif any(it.k == 'exception' for it in tr) and not cb[0].get('in_catch'):
+            elif any(it.k == 'exception' for it in tr) and not _in_catch(tr, cb[0]):
                 # the exceptional await_result rethrows with a bare `throw;`: that needs an exception being handled, i.e. the callback
                 # has to run inside the handler
                 seen_bad = seen_bad or (f, 'on the exception path the callback runs outside the catch handler: await_result::get() rethrows the current exception with `throw;`, which terminates when no exception is being handled')
@@ -180,7 +202,7 @@ def refused_completes(ctx, db):
     for name in ('cocls::future_conv_promise_base::operator<<', 'cocls::future_conv_promise_base::Hlp::operator<<', 'cocls::call_fn_future_awaiter::operator<<', 'cocls::discard'):
         fs = [f for f in db.fns(name, lambdas=True)] + lambdas_of(db, name)
         fs = [f for f in fs if any(e.k == 'call' and norm(e.get('callee')) == 'cocls::awaiter::resume' for e in f.events())] or \
-             [f for f in fs[:6] if any(it.k == 'call' and norm(it.get('callee')) == 'cocls::awaiter::resume' for tr in T.traces(f) for it in tr)]
+             [f for f in sorted(fs, key=lambda g: not g.get('lambda'))[:24] if any(e.k == 'call' for e in f.events()) and any(it.k == 'call' and norm(it.get('callee')) == 'cocls::awaiter::resume' for tr in T.traces(f) for it in tr)]
         if not fs:
             raise Broken('no immediate-completion site found in ' + name)
         targets.append((name, fs))
